@@ -229,6 +229,36 @@ class RandomFair:
         return self.rng.randrange(len(elig))
 
 
+class RandomStarve:
+    """Random-fair, but now and then the actor that just ran is starved for a bounded number of steps while the others go on
+    (a long preemption at a random point: the window a descheduled / slow thread opens).  Bounded, so spin-waits still progress."""
+
+    def __init__(self, seed, p=0.02, min_len=20, max_len=600, hot=(), p_hot=0.4):
+        """hot: label substrings marking the inside of a multi-step write sequence (directed delay injection between critical sections)"""
+        self.rng = random.Random(seed)
+        self.p, self.min_len, self.max_len = p, min_len, max_len
+        self.hot, self.p_hot = tuple(hot), p_hot
+        self.victim, self.left = None, 0
+        self.windows = 0
+        self.hot_windows = 0
+
+    def choose(self, sc, elig, cur):
+        if self.left > 0:
+            self.left -= 1
+            others = [i for i, a in enumerate(elig) if a != self.victim]
+            if others:
+                return self.rng.choice(others)
+            self.left = 0
+        elif cur is not None and cur in elig and len(elig) > 1 and self.rng.random() < (self.p_hot if self.hot and any(h in sc.actors[cur].label for h in self.hot) else self.p):
+            self.victim, self.left = cur, self.rng.randint(self.min_len, self.max_len)
+            self.windows += 1
+            if self.hot and any(h in sc.actors[cur].label for h in self.hot):
+                self.hot_windows += 1
+            others = [i for i, a in enumerate(elig) if a != self.victim]
+            return self.rng.choice(others)
+        return self.rng.randrange(len(elig))
+
+
 class RoundRobin:
     """Fair: after `quantum` consecutive steps of one actor the eligible actor that has waited longest runs next."""
 
